@@ -91,11 +91,22 @@ INSERT_BODY = """(if s.default_values is Some && s.columns@.len() == 0 && s.sour
         seq![lit(" (")] + l_idens(s.columns@) + seq![lit(")"), Ev::Output(s.returning)]
             + (match s.source { None => Seq::<Ev>::empty(), Some(InsertValueSource::Values(v)) => seq![lit(" "), lit("VALUES ")] + l_rows(v@), Some(InsertValueSource::Select(q)) => seq![lit(" "), Ev::Select(*q)] })
     })"""
+INSERT_BODY_PUSHED = """(if s.default_values is Some && s.columns@.len() == 0 && s.source is None {
+        pre.push(Ev::Output(s.returning)).push(lit(" ")).push(Ev::DefaultValues(s.default_values->Some_0))
+    } else {
+        match s.source {
+            None => (pre.push(lit(" (")) + l_idens(s.columns@)).push(lit(")")).push(Ev::Output(s.returning)),
+            Some(InsertValueSource::Values(v)) => (pre.push(lit(" (")) + l_idens(s.columns@)).push(lit(")")).push(Ev::Output(s.returning)).push(lit(" ")).push(lit("VALUES ")) + l_rows(v@),
+            Some(InsertValueSource::Select(q)) => (pre.push(lit(" (")) + l_idens(s.columns@)).push(lit(")")).push(Ev::Output(s.returning)).push(lit(" ")).push(Ev::Select(*q)),
+        }
+    })"""
 INSERT_PARTS = [
     ("with", "(match s.with { Some(w) => seq![Ev::With(w)], None => Seq::<Ev>::empty() })", "(match s.with { Some(w) => pre.push(Ev::With(w)), None => pre })"),
     ("kw", "seq![Ev::InsertKw(s.replace)]", "pre.push(Ev::InsertKw(s.replace))"),
     ("into", '(match s.table { Some(t) => seq![lit(" INTO "), Ev::TRef(*t)], None => Seq::<Ev>::empty() })', '(match s.table { Some(t) => pre.push(lit(" INTO ")).push(Ev::TRef(*t)), None => pre })'),
-    ("body", INSERT_BODY, "pre + " + INSERT_BODY),
+    # (shape in PUSH form, one push per write: the renderer's own query only follows its writes; that this equals `pre + body` is the stage
+    # lemma's business, proved in isolation)
+    ("body", INSERT_BODY, INSERT_BODY_PUSHED),
     ("conflict", "seq![Ev::OnConflict(s.on_conflict)]", "pre.push(Ev::OnConflict(s.on_conflict))"),
     ("returning", "seq![Ev::Returning(s.returning)]", "pre.push(Ev::Returning(s.returning))"),
 ]
@@ -364,7 +375,8 @@ def build(u, variant=None):
         ins["before#2:let mut first = true;"] = "let ghost trow = sql.tr();\nproof { lemma_l_exprs_empty(row@); assert(trow + Seq::<Ev>::empty() =~= trow); }"
         ins["loop3-end"] = "proof { lemma_l_exprs_step(row@, it3.index@ as int); }"
         ins["loop2-end"] = "proof { lemma_l_exprs_empty(row@); lemma_l_rows_step(values@, it2.index@ as int); assert(sql.tr() =~= tv + l_rows(values@.subrange(0, it2.index@ + 1))); }"
-        ins["before#1:self.prepare_on_conflict"] = "proof { if !(insert.default_values.is_some() && insert.columns@.len() == 0 && insert.source.is_none()) { if insert.source is Some && insert.source->Some_0 is Values { lemma_l_rows_empty(insert.source->Some_0->Values_0@); } } assert(sql.tr() =~= tb + " + INSERT_BODY.replace("s.", "insert.") + "); }\n" + ins["before#1:self.prepare_on_conflict"]
+        ins["before#1:self.prepare_on_conflict"] = ("proof { assert(insert.columns@.subrange(0, insert.columns@.len() as int) =~= insert.columns@); if insert.source is Some && insert.source->Some_0 is Values { let v = insert.source->Some_0->Values_0; lemma_l_rows_empty(v@); assert(v@.subrange(0, v@.len() as int) =~= v@); }"
+                                                  " assert(sql.tr() == " + INSERT_BODY_PUSHED.replace("s.", "insert.").replace("pre", "tb") + "); }\n" + ins["before#1:self.prepare_on_conflict"])
         u.fn(QB, "trait QueryBuilder", "prepare_insert_statement", props=P, key="QueryBuilder::prepare_insert_statement", vpath="Dflt::prepare_insert_statement", prefix="#[verifier::rlimit(60)]\n    ",
              rules=[r_dynw, r_fold, r_fmt, make_r_sub("R-opaque", r"col\.prepare\(sql, self\.quote\(\)\)", "self.prepare_iden(col, sql)"),
                     make_r_sub("R-path", r"self\.prepare_select_statement\(select_query\.deref\(\), sql\)", "self.prepare_select_statement_sub(Self::vbox_ref(select_query), sql)")],
